@@ -121,7 +121,38 @@ def operator_grammar(rnd, nlev=None):
         rules.append(dict(lhs=0, rhs=[('t', 1 + rnd.randrange(len(ops))), ('n', 0)], prec=len(terms) - 1, c=5, coef=[0, 11]))
     rules.append(dict(lhs=0, rhs=[('t', 1 + len(ops)), ('n', 0), ('t', 2 + len(ops))], prec=None, c=0, coef=[0, 1, 0]))
     rules.append(dict(lhs=0, rhs=[('t', 0)], prec=None, c=0, coef=[1]))
+    if unary and rnd.random() < 0.7:
+        u = rules.pop(len(ops))
+        rules.insert(rnd.randint(0, len(rules)), u)           # %prec alternative anywhere in the `|` list
     return dict(terms=terms, nonterms=nonterms, precs=precs, rules=rules, start=0, operator=True)
+
+
+def ring_grammar(rnd, k=None, nullable=False):
+    """Mutual right recursion through k nonterminals (an includes-cycle of k transitions), each member also
+    used from the start symbol behind a prefix of its own length and followed by its own terminator:
+        S : N0 x0 | p N1 x1 | p p N2 x2 ... ;  Ni : ti N(i+1 mod k) | ei   (ei empty when nullable)
+    The lookahead of every reduction inside the ring is the union over the whole cycle."""
+    k = k or rnd.randint(2, 4)
+    terms = []
+    def T(name):
+        terms.append(dict(name=name, lit=None, tag='v0', num=None, declared=True))
+        return ('t', len(terms) - 1)
+    p = T('p')
+    xs = [T('x%d' % i) for i in range(k)]
+    ts = [T('t%d' % i) for i in range(k)]
+    es = [T('e%d' % i) for i in range(k)]
+    nonterms = [dict(name='S', tag='v0')] + [dict(name='N%d' % i, tag='v0') for i in range(k)]
+    rules = []
+    def R(lhs, rhs):
+        rules.append(dict(lhs=lhs, rhs=rhs, prec=None, c=len(rules) % 10, coef=[(3 * i + len(rules)) % 9 + 1 for i in range(len(rhs))]))
+    order = list(range(k))
+    rnd.shuffle(order)
+    for i in order:
+        R(0, [p] * i + [('n', 1 + i), xs[i]])
+    for i in range(k):
+        R(1 + i, [ts[i], ('n', 1 + (i + 1) % k)])
+        R(1 + i, [] if (nullable and i % 2 == 0) else [es[i]])
+    return dict(terms=terms, nonterms=nonterms, precs=[], rules=rules, start=0)
 
 
 # ---------------------------------------------------------------- curated grammars (textbook families)
@@ -186,6 +217,10 @@ CURATED = {
     'eps_only': ('S: A A ; A: ', ()),
     'deep_nullable': ('S: A B C ; A: B C | a ; B: C | b ; C: | c', ()),
     'palindrome_even': ('S: a S a | b S b |', ()),
+    # includes-cycles through several nonterminals, entered from different left contexts
+    'ring3': ('S: A u | z B v | z z C w ; A: a B | e ; B: b C | f ; C: c A | g', ()),
+    'chain_two_contexts': ('D: C s | h i j k C d ; C: | K T ; T: V C | E', ()),
+    'ring2_nullable': ('S: A u | z B v ; A: a B | ; B: b A | f', ()),
 }
 
 
@@ -216,12 +251,29 @@ def render_decls(g, lang='go', with_tags=True):
 
 
 def render_rules(g, action=None):
+    """One `lhs : alt | alt ... ;` group per run of consecutive rules with the same left-hand side; every
+    third run is written as separate `lhs : alt ;` rules instead, so that both spellings are exercised."""
     out = []
+    runs = []
     for idx, r in enumerate(g['rules']):
-        body = ' '.join(symname(g, s) for s in r['rhs'])
-        pr = ' %%prec %s' % tname(g, r['prec']) if r['prec'] is not None else ''
-        act = ' ' + action(idx, r) if action else ''
-        out.append('%s : %s%s%s ;\n' % (g['nonterms'][r['lhs']]['name'], body, pr, act))
+        if runs and g['rules'][runs[-1][-1]]['lhs'] == r['lhs']:
+            runs[-1].append(idx)
+        else:
+            runs.append([idx])
+    for k, run in enumerate(runs):
+        alts = []
+        for idx in run:
+            r = g['rules'][idx]
+            body = ' '.join(symname(g, s) for s in r['rhs'])
+            pr = ' %%prec %s' % tname(g, r['prec']) if r['prec'] is not None else ''
+            act = ' ' + action(idx, r) if action else ''
+            alts.append('%s%s%s' % (body, pr, act))
+        lhs = g['nonterms'][g['rules'][run[0]]['lhs']]['name']
+        if k % 3 == 2:
+            for a in alts:
+                out.append('%s : %s ;\n' % (lhs, a))
+        else:
+            out.append('%s : %s ;\n' % (lhs, '\n  | '.join(alts)))
     return ''.join(out)
 
 
